@@ -109,7 +109,10 @@ func evalCase(c map[string]any, maxOut int, budget time.Duration, noast bool) vl
 	}
 	runs := []any{}
 	for _, iv := range c["inputs"].([]any) {
-		r := runCode(code, vlib.DecVal(iv, rep), nil, maxOut, budget)
+		var r runResult
+		if watchdog(budget+5*time.Second, func() { r = runCode(code, vlib.DecVal(iv, rep), nil, maxOut, budget) }) {
+			r = runResult{Out: []any{}, Panic: "HANG: the run neither returned nor reacted to its cancelled context"}
+		}
 		run := vlib.M{"in": iv, "out": r.Out}
 		if r.Err != nil {
 			run["err"] = r.Err
